@@ -1,0 +1,64 @@
+//go:build verif
+
+package internal
+
+import "math"
+
+// VerifToken is one Lex() result together with what the parser can observe of
+// the lexer right after the call. Only built with the `verif` tag; used by the
+// external verification harness, adds no behaviour.
+type VerifToken struct {
+	Kind   string // "eof", "id", "lit", "int", "dbl", "kw", "sym"
+	Text   string // identifier / unquoted literal / keyword name
+	I64    int64
+	Bits   uint64 // math.Float64bits of a DUBCONSTANT
+	Sym    int
+	Line   int // lex.Pos() after the call
+	Column int
+	Err    bool // AppendError was called during the call
+}
+
+// VerifLexAll runs the scanner over data and returns every Lex() result up to
+// and including the first one that is 0 (end of input or lexical error).
+func VerifLexAll(data []byte) []VerifToken {
+	lex := newLexer(data)
+	var out []VerifToken
+	for i := 0; i <= len(data)+1; i++ {
+		var v yySymType
+		nerr := len(lex.errors)
+		tok := lex.Lex(&v)
+		pos := lex.Pos()
+		t := VerifToken{Line: pos.Line, Column: pos.Column, Err: len(lex.errors) > nerr}
+		switch {
+		case tok == 0:
+			t.Kind = "eof"
+		case tok == IDENTIFIER:
+			t.Kind, t.Text = "id", v.str
+		case tok == LITERAL:
+			t.Kind, t.Text = "lit", v.str
+		case tok == INTCONSTANT:
+			t.Kind, t.I64 = "int", v.i64
+		case tok == DUBCONSTANT:
+			t.Kind, t.Bits = "dbl", math.Float64bits(v.dub)
+		case tok < 256:
+			t.Kind, t.Sym = "sym", tok
+		default:
+			t.Kind, t.Text = "kw", verifKeywords[tok]
+		}
+		out = append(out, t)
+		if tok == 0 {
+			break
+		}
+	}
+	return out
+}
+
+var verifKeywords = map[int]string{
+	NAMESPACE: "namespace", INCLUDE: "include", CPP_INCLUDE: "cpp_include",
+	VOID: "void", BOOL: "bool", BYTE: "byte", I8: "i8", I16: "i16", I32: "i32", I64: "i64",
+	DOUBLE: "double", STRING: "string", BINARY: "binary", MAP: "map", LIST: "list", SET: "set",
+	ONEWAY: "oneway", TYPEDEF: "typedef", STRUCT: "struct", UNION: "union",
+	EXCEPTION: "exception", EXTENDS: "extends", THROWS: "throws", SERVICE: "service",
+	ENUM: "enum", CONST: "const", REQUIRED: "required", OPTIONAL: "optional",
+	TRUE: "true", FALSE: "false",
+}
